@@ -8,6 +8,7 @@ import (
 	"go/parser"
 	"go/token"
 	"math/rand"
+	"sort"
 	"strconv"
 	"strings"
 
@@ -305,6 +306,21 @@ func c07SrcCheck(in c07SrcInput) (key, what string) {
 	}
 	for _, cm := range oc {
 		gotC = append(gotC, cm.Lit)
+	}
+	// (in the order of the source -- or, where the text model has an answer, in the order gofmt gives
+	// them on the edited text: a deletion can join two runs of import lines, which go/format then sorts
+	// together, trailing comments travelling with their specs)
+	if exp, ok := c07ExpectedText(in.Src, in.Remove); ok {
+		_, ec, _ := scanAll(exp)
+		wantC = wantC[:0]
+		for _, cm := range ec {
+			wantC = append(wantC, cm.Lit)
+		}
+	} else {
+		sort.Strings(wantC)
+		g := append([]string{}, gotC...)
+		sort.Strings(g)
+		gotC = g
 	}
 	if strings.Join(wantC, "\n") != strings.Join(gotC, "\n") {
 		return "c07-preserve", fmt.Sprintf("the references to %q were removed: the comments of the output are %q, expected %q\n%s", in.Remove, gotC, wantC, out)
